@@ -100,8 +100,10 @@ class ExtGrid(NodeElementComponent):
 
         # positive results mean that the ext_grid feeds in, negative means that the ext grid
         # extracts (like a load)
-        res_table["mdot_kg_per_s"].values[p_grids] = \
-            cls.sign() * (sum_mass_flows / counts)[inverse_nodes]
+        mdot = cls.sign() * (sum_mass_flows / counts)[inverse_nodes]
+        # an external grid at a junction that is not part of the calculated network does not feed anything
+        mdot[~get_lookup(net, "node", "active_hydraulics")[eg_nodes]] = np.nan
+        res_table["mdot_kg_per_s"].values[p_grids] = mdot
         return res_table, ext_grids, node_pit, branch_pit
 
     @classmethod
